@@ -633,6 +633,10 @@ func (s Subtitles) WriteToWebVTT(o io.Writer) (err error) {
 				c = append(c, bytesSpace...)
 				c = append(c, []byte("vertical:"+item.Style.InlineStyle.WebVTTVertical)...)
 			}
+		} else if item.Region != nil {
+			// No inline style: the region is still referenced
+			c = append(c, bytesSpace...)
+			c = append(c, []byte("region:"+item.Region.ID)...)
 		}
 
 		// Add new line
